@@ -992,6 +992,21 @@ func (f *fnTrans) frameObligations(ins *ssa.Return, ord int) {
 
 // ghostSet executes a contract-level ghost assignment  name(x) = e.
 func (f *fnTrans) ghostSet(env *Env, loc, src string) {
+	if _, ok := f.w.ghostVar[strings.TrimSpace(loc)]; ok {
+		vx, err := ParseSpecExpr(src)
+		if err != nil {
+			f.unsupported("ghostset %s: %v", loc, err)
+			return
+		}
+		env.st = f.cur
+		v, err := env.EvalAny(vx)
+		if err != nil {
+			f.unsupported("ghostset %s: %v", loc, err)
+			return
+		}
+		f.setHeap("G$"+strings.TrimSpace(loc), v.T)
+		return
+	}
 	i := strings.Index(loc, "(")
 	if i <= 0 || !strings.HasSuffix(loc, ")") {
 		f.unsupported("ghostset: bad location %q", loc)
